@@ -24,7 +24,7 @@ RULE = (
     ">= 2 rows or that was appended to by >= 2 calls."
 )
 ASSUMPTIONS = c01.ASSUMPTIONS[:2] + ["init_utc_timestamp is computed in long double by the library; the property says 'the session's start timestamp', so +-1 s is accepted"]
-FLOORS = {"nontrivial": 0.25}
+FLOORS = {"nontrivial": 0.25, "start-inexact-in-double": 0.03}
 
 PROP_KEYS = ["H5Tget_class", "H5Tget_size", "H5Tget_order", "H5Tget_precision", "H5Tget_offset", "subdir_cadence_secs",
              "file_cadence_millisecs", "sample_rate_numerator", "sample_rate_denominator", "is_complex",
@@ -183,6 +183,8 @@ def run_case(case):
             res.cls("multirow-or-appended")
         if case["path"] == "c":
             res.cls("cpath")
+        if float(cfg["start"]) != cfg["start"]:
+            res.cls("start-inexact-in-double")
         if res.failures:
             return res
         # ---- regeneration from every single file
